@@ -152,7 +152,7 @@ impl IncomingToken {
                 if address != remote_address {
                     return Err(InvalidRetryTokenError);
                 }
-                if issued + server_config.retry_token_lifetime < server_config.time_source.now() {
+                if expired(issued, server_config.retry_token_lifetime, server_config) {
                     return Err(InvalidRetryTokenError);
                 }
 
@@ -166,9 +166,7 @@ impl IncomingToken {
                 if ip != remote_address.ip() {
                     return Ok(unvalidated);
                 }
-                if issued + server_config.validation_token.lifetime
-                    < server_config.time_source.now()
-                {
+                if expired(issued, server_config.validation_token.lifetime, server_config) {
                     return Ok(unvalidated);
                 }
                 if server_config
@@ -188,6 +186,15 @@ impl IncomingToken {
             }
         }
     }
+}
+
+/// Whether a token issued at `issued` has outlived `lifetime`
+///
+/// An expiry time beyond what `SystemTime` can represent never passes.
+fn expired(issued: SystemTime, lifetime: Duration, server_config: &ServerConfig) -> bool {
+    issued
+        .checked_add(lifetime)
+        .is_some_and(|expiry| expiry < server_config.time_source.now())
 }
 
 /// Error for a token being unambiguously from a Retry packet, and not valid
@@ -355,7 +362,7 @@ fn encode_unix_secs(buf: &mut Vec<u8>, time: SystemTime) {
 }
 
 fn decode_unix_secs<B: Buf>(buf: &mut B) -> Option<SystemTime> {
-    Some(UNIX_EPOCH + Duration::from_secs(buf.get::<u64>().ok()?))
+    UNIX_EPOCH.checked_add(Duration::from_secs(buf.get::<u64>().ok()?))
 }
 
 /// Stateless reset token
